@@ -196,6 +196,10 @@ func VerifC19Update() {
 		data, err := b.MarshalBinary()
 		vsym.Assert(err == nil, "marshal-ok")
 		c := NewDefaultBSI()
+		if rw := vsym.Param("rw"); rw > 0 {
+			// a receiver created for a wider range than the data needs
+			c = NewBSI(int64(1)<<uint(rw-1)-1, -(int64(1) << uint(rw-1)))
+		}
 		vsym.Assert(c.UnmarshalBinary(data) == nil, "unmarshal-ok")
 		vsym.Assert(c.Equals(b), "marshal-equals")
 		vCheckBSI(c, m, "marshal")
